@@ -421,6 +421,54 @@ def fold_constants(trees, base, log):
                 log.append(f'N1 {mname}: class constant {cn.name}.{name} = {_txt(val)} folded into {rep.count + rep2.count} use(s)')
 
 
+def fold_int_enums(trees, base, log):
+    """N1c.  Members of a new IntEnum (values: int literals or auto(), which counts from 1) used as numbers are those numbers:
+    `Cls.MEMBER` -> its int, `Cls.MEMBER.value` -> its int, `Cls.MEMBER.name` -> its name.  The class stays when it is used otherwise."""
+    for mname, tree in trees.items():
+        b = base.get(mname, {'classes': {}})
+        for c in list(tree.body):
+            if not (isinstance(c, ast.ClassDef) and c.name not in b.get('classes', {}) and any(_txt(x) in ('IntEnum', 'enum.IntEnum') for x in c.bases)):
+                continue
+            members, nxt, ok = {}, 1, True
+            for st in c.body:
+                if isinstance(st, ast.Expr) and isinstance(st.value, ast.Constant):
+                    continue
+                name, val = _single_name_assign(st)
+                if name is None:
+                    ok = False
+                    break
+                if isinstance(val, ast.Call) and _txt(val.func) in ('auto', 'enum.auto') and not val.args:
+                    members[name] = nxt
+                elif isinstance(val, ast.Constant) and isinstance(val.value, int) and not isinstance(val.value, bool):
+                    members[name] = val.value
+                else:
+                    ok = False
+                    break
+                nxt = members[name] + 1
+            if not ok or not members:
+                continue
+            count = [0]
+
+            class R(ast.NodeTransformer):
+                def visit_Attribute(self, node):
+                    if isinstance(node.ctx, ast.Load) and node.attr in ('value', 'name') and isinstance(node.value, ast.Attribute) \
+                            and isinstance(node.value.value, ast.Name) and node.value.value.id == c.name and node.value.attr in members:
+                        count[0] += 1
+                        return ast.copy_location(ast.Constant(value=members[node.value.attr] if node.attr == 'value' else node.value.attr), node)
+                    if isinstance(node.ctx, ast.Load) and isinstance(node.value, ast.Name) and node.value.id == c.name and node.attr in members:
+                        count[0] += 1
+                        return ast.copy_location(ast.Constant(value=members[node.attr]), node)
+                    return self.generic_visit(node)
+            for t2 in trees.values():
+                for st in t2.body:
+                    if st is not c:
+                        R().visit(st)
+            still = any(isinstance(x, ast.Name) and x.id == c.name for t2 in trees.values() for st in t2.body if st is not c for x in ast.walk(st))
+            if not still:
+                tree.body.remove(c)
+            log.append(f'N1c {mname}: members of the new IntEnum {c.name} {members} folded into {count[0]} use(s)')
+
+
 def expand_constant_sets(trees, base, log):
     """N1b.  `X in GROUP` / `X not in GROUP`, GROUP a new module- or class-level constant bound once to a literal collection of enum
     members / constants and used for membership tests only  ->  the chain of `==` the baseline writes.  When GROUP holds more than
@@ -563,12 +611,15 @@ def instantiate_method_factories(trees, base, log):
                                         type_params=[])
                 ast.copy_location(inner, lam)
                 ast.copy_location(inner.body[0], lam)
+            if inner is None and len(body) == 1 and isinstance(body[0], ast.Return) and body[0].value is not None \
+                    and isinstance(body[0].value, ast.Call) and _txt(body[0].value.func) == 'property':
+                inner = body[0].value                 # an expression factory: `return property(...)`
             if inner is None:
                 continue
             params = [x.arg for x in a.args]
             # the parameters are never re-bound inside (neither in the factory nor in the inner function), no nonlocal
             rebound = any((isinstance(x, ast.Name) and isinstance(x.ctx, (ast.Store, ast.Del)) and x.id in params) or isinstance(x, (ast.Nonlocal, ast.Global))
-                          for x in ast.walk(inner)) or any(x.arg in params for x in ast.walk(inner.args) if isinstance(x, ast.arg))
+                          for x in ast.walk(inner)) or (not isinstance(inner, ast.Call) and any(x.arg in params for x in ast.walk(inner.args) if isinstance(x, ast.arg)))
             if rebound:
                 continue
             factories[fn.name] = (fn, inner, params, a.defaults)
@@ -599,6 +650,12 @@ def instantiate_method_factories(trees, base, log):
                 if not all(isinstance(v, ast.Constant) or (_pure_read(v) and all(isinstance(x, (ast.Name, ast.Attribute, ast.Load)) for x in ast.walk(v)))
                            for v in m.values()):
                     continue
+                if isinstance(inner, ast.Call):
+                    st.value = ast.copy_location(_Subst(m, {}).visit(copy.deepcopy(inner)), st.value)
+                    ast.fix_missing_locations(st)
+                    used[val.func.id] += 1
+                    log.append(f'N2f {mname}: {c.name}.{name} = {val.func.id}(..) replaced by the expression the factory returns')
+                    continue
                 meth = copy.deepcopy(inner)
                 meth.name = name
                 meth = _Subst(m, {}).visit(meth)
@@ -611,6 +668,46 @@ def instantiate_method_factories(trees, base, log):
                 still = any(isinstance(x, ast.Name) and x.id == k and isinstance(x.ctx, ast.Load) for t in trees.values() for x in ast.walk(t))
                 if not still:
                     tree.body.remove(factories[k][0])
+
+
+def property_objects_to_methods(trees, log):
+    """`name = property(attrgetter('a.b'))` / `property(lambda self: E)` in a class body  ->  `@property def name(self): return self.a.b` / `E`."""
+    def const_str(e):
+        if isinstance(e, ast.Constant) and isinstance(e.value, str):
+            return e.value
+        if isinstance(e, ast.BinOp) and isinstance(e.op, ast.Add):
+            l, r = const_str(e.left), const_str(e.right)
+            return None if l is None or r is None else l + r
+        return None
+    n = 0
+    for tree in trees.values():
+        for c in [c for c in tree.body if isinstance(c, ast.ClassDef)]:
+            for st in list(c.body):
+                name, val = _single_name_assign(st)
+                if name is None or not (isinstance(val, ast.Call) and _txt(val.func) == 'property' and len(val.args) == 1
+                                        and all(k.arg == 'doc' for k in val.keywords)):
+                    continue
+                fget = val.args[0]
+                ret = None
+                if isinstance(fget, ast.Call) and _txt(fget.func) in ('attrgetter', 'operator.attrgetter') and len(fget.args) == 1 and not fget.keywords:
+                    path = const_str(fget.args[0])
+                    if path and all(p.isidentifier() for p in path.split('.')):
+                        ret = ast.Name(id='self', ctx=ast.Load())
+                        for p in path.split('.'):
+                            ret = ast.Attribute(value=ret, attr=p, ctx=ast.Load())
+                elif isinstance(fget, ast.Lambda) and len(fget.args.args) == 1 and not fget.args.defaults:
+                    ret = _Subst({fget.args.args[0].arg: ast.Name(id='self', ctx=ast.Load())}, {}).visit(copy.deepcopy(fget.body))
+                if ret is None:
+                    continue
+                fn = ast.FunctionDef(name=name, args=ast.arguments(posonlyargs=[], args=[ast.arg(arg='self')], kwonlyargs=[], kw_defaults=[], defaults=[]),
+                                     body=[ast.Return(value=ret)], decorator_list=[ast.Name(id='property', ctx=ast.Load())], returns=None, type_comment=None,
+                                     type_params=[])
+                ast.copy_location(fn, st)
+                ast.fix_missing_locations(fn)
+                c.body[c.body.index(st)] = fn
+                n += 1
+    if n:
+        log.append(f'N2f {n} property object(s) built from attrgetter / lambda written as property methods')
 
 
 # =================================================================================================== N2 helpers
@@ -3867,6 +3964,7 @@ def run(trees, baseline=None):
     match_to_if(trees, log)
     refinement_chains(trees, log)
     instantiate_method_factories(trees, base, log)
+    property_objects_to_methods(trees, log)
     expand_seeded_generators(trees, log)
     inline_bound_method_fields(trees, base, log)
     OBSERVERS.clear()
@@ -3875,6 +3973,7 @@ def run(trees, baseline=None):
     defaults_into_init(trees, base, log)
     from .consteval import fold_table_helpers
     fold_table_helpers(trees, base, log)
+    fold_int_enums(trees, base, log)
     expand_constant_sets(trees, base, log)
     fold_constants(trees, base, log)
     NON_NONE_CLASS_CONSTANTS.clear()
